@@ -572,6 +572,16 @@ func (a *Analysis) CalleeEffects(call ssa.CallInstruction) []CallEffect {
 		if a.benign(name) {
 			return nil
 		}
+		// library methods that insert into / delete from the map they are called on
+		switch name {
+		case "(net/http.Header).Set", "(net/http.Header).Add", "(net/http.Header).Del",
+			"(net/textproto.MIMEHeader).Set", "(net/textproto.MIMEHeader).Add", "(net/textproto.MIMEHeader).Del",
+			"(net/url.Values).Set", "(net/url.Values).Add", "(net/url.Values).Del":
+			if len(args) > 0 {
+				out = append(out, CallEffect{Effect{Root: Unknown, Kind: "mapinsert", Via: core.FuncName(call.Parent()), Pos: call.Pos()}, args[0]})
+			}
+			return out
+		}
 		// external function: may write through its reference arguments
 		for _, arg := range args {
 			if isRefType(arg.Type()) {
